@@ -3,6 +3,7 @@ mod gen;
 mod hist;
 mod mem;
 mod model;
+mod pe;
 mod prog;
 mod row;
 mod rules;
@@ -55,6 +56,7 @@ fn main() {
         "thr" => thr::run(&tier, seed),
         "row" => row::run(&tier, seed),
         "scn" => scn::run(&tier, seed),
+        "pe" => pe::run(&tier, seed),
         _ => {
             eprintln!("unknown engine {engine}");
             std::process::exit(2);
